@@ -70,7 +70,7 @@ func VerifFault() {
 			// only the final sync (after the header write) failed: the header of the attempt may be durable
 			onlyFinalSync = true
 		}
-		if !verifKnown("D10", (kind == faultTruncate || kind == faultMMap || kind == faultSize) && faults > 0) {
+		if !verifKnown("D10", (kind == faultTruncate || kind == faultMMap || kind == faultSize) && faults > 0 && s.f.metaActive != snapBefore.metaActive) {
 			assertSnapEqual(snapBefore, snapOf(s.f), "after the failed commit", !onlyFinalSync)
 		}
 	}
@@ -166,5 +166,143 @@ func VerifOpenFault() {
 	s2.checkCommitted("after the failed open")
 	s2.followUp()
 	s2.checkCommitted("after a transaction")
+	verifReach("end")
+}
+
+// VerifFaultGrow (C08): failures of Size / MMap / Truncate inside Commit.  These
+// calls happen only when a commit has to re-map the file (an unbounded file that
+// grew past its mapping) or to truncate it (a bounded file that was extended by
+// the overflow area and whose overflow pages became free again).
+func VerifFaultGrow() {
+	scen := verifChoose(2)
+	cfg := &progCfg{concrete: true, capacity: 192 * 1024}
+	if scen == 1 {
+		cfg.maxPages, cfg.overflow, cfg.metaArea = 64, true, 2
+	}
+	s := verifNewProg(cfg)
+	s.setup(2)
+	if scen == 1 {
+		// bounded file, data area full, one transaction pushes overwrite pages into the overflow area
+		cfg.overflow = false
+		s.allocRaw(int(s.availNow()))
+		cfg.overflow = true
+		tx0, e0 := s.f.BeginWith(TxOptions{EnableOverflowArea: true})
+		verifAssert(e0 == nil, "Begin succeeds")
+		w0 := s.m.clone()
+		for k := 0; k < 3; k++ {
+			rp := &w0.pages[k]
+			p, _ := tx0.Page(rp.id)
+			b0, b1 := s.content()
+			verifAssert(p.SetBytes(verifBuf(b0, b1, b1)) == nil, "overwriting a live page succeeds")
+			rp.b0, rp.b1, rp.last, rp.raw = b0, b1, b1, false
+		}
+		verifAssert(tx0.Commit() == nil, "Commit with the overflow area enabled succeeds on a full file")
+		s.m = w0.clone()
+		sz0, _ := s.disk.Size()
+		verifAssert(sz0 > 64*verifPageSize, "the overflow area extended the file beyond its maximum size")
+		// free live pages and checkpoint: the overflow pages become free; the file is cut back by the
+		// commit after this one (the extent of the last two transactions is kept)
+		tx1, e1 := s.f.BeginWith(TxOptions{EnableOverflowArea: true})
+		verifAssert(e1 == nil, "Begin succeeds")
+		w1 := s.m.clone()
+		verifAssert(tx1.CheckpointWAL() == nil, "CheckpointWAL succeeds")
+		for k := 0; k < 6; k++ {
+			i := len(w1.pages) - 1
+			p, perr := tx1.Page(w1.pages[i].id)
+			verifAssert(perr == nil, "a live page can be accessed")
+			verifAssert(p.Free() == nil, "freeing a clean page succeeds")
+			w1.remove(i)
+		}
+		verifAssert(tx1.Commit() == nil, "Commit succeeds")
+		s.m = w1.clone()
+		s.assertPartition("after the overflow pages were released")
+	}
+	snapBefore := snapOf(s.f)
+	mapsBefore := s.disk.mmaps
+
+	kinds := []int{faultMMap, faultSize, faultTruncate, faultNone}
+	kind := kinds[verifChoose(len(kinds))]
+	ord := verifChoose(2)
+	s.disk.faultKind, s.disk.faultOrd, s.disk.faultBurst = kind, s.disk.counts[kind]+ord, 1
+	s.disk.nfaults = 0
+	verifLogU64("scenario", uint64(scen))
+	verifLogU64("fault kind", uint64(kind))
+	verifLogU64("fault ordinal", uint64(ord))
+
+	tx, err := s.f.BeginWith(TxOptions{EnableOverflowArea: scen == 1})
+	verifAssert(err == nil, "Begin succeeds")
+	w := s.m.clone()
+	s.freed = s.freed[:0]
+	if scen == 0 {
+		// grow past the 64 KiB mapping (or stay just below it)
+		ns := []int{61, 70, 60}
+		n := ns[verifChoose(len(ns))]
+		verifLogU64("AllocN", uint64(n))
+		ps, aerr := tx.AllocN(n)
+		verifAssert(aerr == nil && len(ps) == n, "AllocN on an unbounded file succeeds")
+		for k, p := range ps {
+			s.checkOwnership(w, p.ID())
+			if k == 0 || k == n-1 {
+				b0, b1 := s.content()
+				verifAssert(p.SetBytes(verifBuf(b0, b1, b1)) == nil, "SetBytes succeeds")
+				w.pages = append(w.pages, refPage{id: p.ID(), b0: b0, b1: b1, last: b1})
+			} else {
+				w.pages = append(w.pages, refPage{id: p.ID(), raw: true})
+			}
+		}
+	} else {
+		// any change: this commit truncates the file to its maximum size
+		rp := &w.pages[0]
+		p, perr := tx.Page(rp.id)
+		verifAssert(perr == nil, "a live page can be accessed")
+		b0, b1 := s.content()
+		verifAssert(p.SetBytes(verifBuf(b0, b1, b1)) == nil, "overwriting a live page succeeds")
+		rp.b0, rp.b1, rp.last, rp.raw = b0, b1, b1, false
+	}
+	truncs, maps := s.disk.counts[faultTruncate], s.disk.counts[faultMMap]
+	cerr := tx.Commit()
+	faults := s.disk.nfaults
+	s.disk.faultKind = faultNone
+	verifLogU64("faults hit", uint64(faults))
+	verifLogU64("truncate calls in Commit", uint64(s.disk.counts[faultTruncate]-truncs))
+	verifLogU64("mmap calls in Commit", uint64(s.disk.counts[faultMMap]-maps))
+	if s.disk.counts[faultTruncate] > truncs {
+		verifReach("truncate in Commit")
+	}
+	if s.disk.counts[faultMMap] > maps {
+		verifReach("mmap in Commit")
+	}
+	if cerr == nil {
+		verifAssert(faults == 0, "Commit succeeds only if no call failed")
+		s.m = w.clone()
+	} else {
+		verifAssert(faults > 0, "Commit fails only because of the injected failure")
+		// the failure hit while the file was re-mapped / truncated, i.e. after the new header was
+		// written and synced and after the in-memory state was switched to it
+		if !verifKnown("D10", s.f.metaActive != snapBefore.metaActive) {
+			assertSnapEqual(snapBefore, snapOf(s.f), "after the failed commit", true)
+		}
+	}
+	if verifParam("nomapcheck", 0) == 0 {
+		verifAssert(s.disk.mmaps == mapsBefore, "the File still has exactly one live mapping (reads go through it)")
+	}
+	s.checkCommitted("after the commit attempt")
+	s.assertPartition("after the commit attempt")
+	s.followUp()
+	s.checkCommitted("after the follow-up transaction")
+	s.assertPartition("after the follow-up transaction")
+	if verifParam("nomapcheck", 0) == 0 {
+		verifAssert(s.disk.mmaps == mapsBefore, "after the follow-up transaction: one live mapping")
+	}
+
+	img := s.disk.image()
+	verifAssert(s.f.Close() == nil, "File.Close succeeds")
+	disk2 := memFileFrom(img, cap(s.disk.data))
+	f2, oerr := openWith(disk2, cfg.options())
+	verifAssert(oerr == nil, "reopening succeeds")
+	rtx, rerr := f2.BeginReadonly()
+	verifAssert(rerr == nil, "BeginReadonly after reopen")
+	verifAssert(viewMatches(rtx, s.m), "after reopening: the state the running instance showed")
+	rtx.Close()
 	verifReach("end")
 }
